@@ -33,12 +33,15 @@ Lemma exp_series_absolute_lemma (z : C) :
   infinite_sum (fun n => cabs (cmul (RtoC (/ INR (fact n))) (cpown z n))) (exp (cabs z)) /\
   (forall N : nat,
      cabs (csub (cexp z) (cpsum (fun n => RtoC (/ INR (fact n))) z N))
-     <= exp (cabs z) - sum_f_R0 (fun n => / INR (fact n) * cabs z ^ n) N) /\
-  Un_cv (fun N => exp (cabs z) - sum_f_R0 (fun n => / INR (fact n) * cabs z ^ n) N) 0.
+     <= exp (cabs z) - sum_f_R0 (fun n => / INR (fact n) * cabs z ^ n) N
+     <= cabs z ^ S N / INR (fact (S N)) * exp (cabs z)) /\
+  Un_cv (fun N => cabs z ^ S N / INR (fact (S N)) * exp (cabs z)) 0.
 Proof.
   split; [exact (exp_series_abs_lemma z)|]. split.
-  - intros N. exact (exp_series_tail_lemma z N).
-  - exact (exp_tail_bound_to_0 (cabs z)).
+  - intros N. split; [exact (exp_series_tail_lemma z N)|].
+    replace (cabs z ^ S N / INR (fact (S N))) with (expq (cabs z) (S N)) by (unfold expq, Rdiv; ring).
+    exact (expq_tail_bound (cabs z) N (cabs_nonneg z)).
+  - exact (exp_explicit_bound_to_0 (cabs z)).
 Qed.
 
 Lemma hyperbolic_series_lemma (z : C) :
